@@ -1,11 +1,11 @@
 package main
 
 import (
-	"strings"
 	"fmt"
 	"go/constant"
 	"go/token"
 	"go/types"
+	"strings"
 
 	"golang.org/x/tools/go/ssa"
 )
@@ -628,6 +628,10 @@ func rulePStepZero(p *Program, r *Reporter) {
 				tn := typeShort(derefType(fa.X.Type()))
 				key := fmt.Sprintf("%s constructs %s.Step", name, tn)
 				if !nonZero(b, st.Val, nil, 0) {
+					if f := p.indexParserFacts(); f.why == "" && f.stepOK && f.paths > 0 && onlyCalledWithin(fn, f.entered) {
+						r.OK(st.Pos(), key, fmt.Sprintf("the zero test is not in this function; by interpretation of the bracket-specifier parser (which this function is part of) every one of its %d accepting paths builds its node with a step known to be non-zero", f.paths))
+						continue
+					}
 					r.Bad(instrPos(st), key, "a slice node can be built with step "+st.Val.String()+" that is not known to be non-zero (evaluation divides by it)")
 					continue
 				}
